@@ -849,3 +849,115 @@ Section StateR.
     intros Hb Hp Hwf Hlt. unfold read_restart. rewrite Hb, Hp. apply raw_short_rejected; auto.
   Qed.
 End StateR.
+
+(* ------------------------------------------------------------------ malformed restart blocks *)
+Section StateBad.
+  Context {T : Type} (O : NumOps T).
+  Notation tk := (tok T).
+
+  Lemma until_close_none (s : list tk) : ~ In TClose s -> until_close s = None.
+  Proof.
+    induction s as [|t s IH]; intros H; [reflexivity|].
+    cbn [until_close]. rewrite IH by (intros Hin; apply H; right; exact Hin).
+    destruct t; try reflexivity. exfalso. apply H. left. reflexivity.
+  Qed.
+
+  (* a block that is not closed is rejected *)
+  Lemma unterminated_block_rejected cvs (g : grid T) (toks : list tk) :
+    ~ In TClose toks -> read_restart O cvs g toks = None.
+  Proof.
+    intros H. unfold read_restart, read_block.
+    assert (Hs : forall s : list tk, ~ In TClose s -> ~ In TClose (skip_nl s)).
+    { induction s as [|t s IH]; intros Hn; [exact Hn|]. destruct t; try exact Hn.
+      cbn [skip_nl]. apply IH. intros Hin. apply Hn. right. exact Hin. }
+    pose proof (Hs toks H) as H1.
+    destruct (skip_nl toks) as [|t r]; [reflexivity|].
+    destruct t; try reflexivity. destruct k; try reflexivity.
+    assert (H2 : ~ In TClose r) by (intros Hin; apply H1; right; exact Hin).
+    pose proof (Hs r H2) as H3.
+    destruct (skip_nl r) as [|t2 r2]; [reflexivity|]. destruct t2; try reflexivity.
+    rewrite until_close_none; [reflexivity|]. intros Hin. apply H3. right. exact Hin.
+  Qed.
+
+  Lemma take_nums_short n (vals : list tk) : lead O vals < n -> take_nums O n vals = None.
+  Proof.
+    intros H. destruct (take_nums O n vals) as [[xs r]|] eqn:E; [|reflexivity].
+    apply take_nums_lead in E. lia.
+  Qed.
+
+  (* fewer boundaries than variables: rejected *)
+  Lemma short_boundaries_rejected cvs (g : grid T) (conf vals : list tk) :
+    lookup KLower conf = Some vals -> lead O vals < length (gr_lower g) ->
+    parse_params O cvs g conf = None.
+  Proof.
+    intros Hl Hs. unfold parse_params.
+    destruct (match lookup KNColvars conf with
+              | None => Some (Z.of_nat (gnd g)) | Some [TInt n] => Some n | Some _ => None end) as [nd_in|];
+      [|reflexivity].
+    destruct (negb (nd_in =? Z.of_nat (gnd g))%Z); [reflexivity|].
+    assert (Hg : get_vec O KLower conf (gr_lower g) = None).
+    { unfold get_vec. rewrite Hl. destruct vals as [|v vs]; [reflexivity|].
+      rewrite take_nums_short by exact Hs. reflexivity. }
+    rewrite Hg. reflexivity.
+  Qed.
+End StateBad.
+
+(* ------------------------------------------------------------------ OpenDX header *)
+Section DX.
+  Local Open Scope R_scope.
+  (* the origin is the centre of the first bin and origin + k * delta the centre of bin k *)
+  Lemma dx_origin_first_centre (lower width : list R) (nx : list Z) : length lower = length nx -> length width = length nx ->
+    dx_origin Rops lower width = bin_centers Rops lower width (new_index nx).
+  Proof.
+    revert width nx; induction lower as [|l ls IH]; intros [|w ws] [|n ns] H1 H2; try discriminate; [reflexivity|].
+    cbn [dx_origin bin_centers new_index map]. f_equal.
+    - unfold bin_to_value, nhalf; cbn. lra.
+    - apply IH; cbn in *; lia.
+  Qed.
+  Lemma dx_point_centre (l w : R) (k : Z) :
+    nadd Rops l (nmul Rops (nhalf Rops) w) + IZR k * w = bin_to_value Rops l w k.
+  Proof. unfold bin_to_value, nhalf; cbn. lra. Qed.
+End DX.
+
+(* ------------------------------------------------------------------ statements as they appear in Properties_C15.v *)
+Lemma write_order_is_address_order mult nx : (0 < mult)%Z -> all_pos nx -> nx <> [] ->
+  map (fun ix => Z.to_nat (address mult nx ix)) (all_indices nx) = arange 0 (Z.to_nat mult) (npoints nx) /\
+  Forall (in_range nx) (all_indices nx) /\
+  forall extra, walk (npoints nx + extra) nx (new_index nx) = all_indices nx.
+Proof.
+  intros Hm Hp Hne. split; [apply all_addresses; auto|]. split.
+  - apply (all_indices_spec nx Hp Hne).
+  - intros extra. apply walk_fuel_irrelevant; auto.
+Qed.
+
+Lemma raw_roundtrip_full (T : Type) (O : NumOps T) (buf : nat) (g g0 : grid T) (rest : list (tok T)) :
+  grid_wf g -> grid_wf g0 -> same_shape g0 g ->
+  strip (write_raw buf g) = map TNum (gr_data g) /\
+  read_raw O g0 (write_raw buf g ++ rest) = Some (set_data g0 (gr_data g), strip rest).
+Proof. intros H H0 Hs. split; [apply strip_write_raw; auto | apply raw_roundtrip; auto]. Qed.
+
+Lemma state_malformed_rejected (cvs : list (cvinfo (T := R))) (g0 : grid R) :
+  (forall toks, ~ In TClose toks -> read_restart Rops cvs g0 toks = None) /\
+  (forall conf vals, lookup KLower conf = Some vals -> (lead Rops vals < length (gr_lower g0))%nat ->
+     parse_params Rops cvs g0 conf = None) /\
+  (forall toks conf s g1, read_block toks = Some (conf, s) -> parse_params Rops cvs g0 conf = Some g1 ->
+     grid_wf g1 -> (lead Rops (strip s) < length (gr_data g1))%nat -> read_restart Rops cvs g0 toks = None).
+Proof.
+  split; [|split].
+  - intros toks. apply unterminated_block_rejected.
+  - intros conf vals. apply short_boundaries_rejected.
+  - intros toks conf s g1. apply short_state_rejected.
+Qed.
+
+Lemma opendx_origin (lower width : list R) (nx : list Z) :
+  length lower = length nx -> length width = length nx ->
+  dx_origin Rops lower width = bin_centers Rops lower width (new_index nx) /\
+  forall l w k, (nadd Rops l (nmul Rops (nhalf Rops) w) + IZR k * w = bin_to_value Rops l w k)%R.
+Proof. intros H1 H2. split; [apply dx_origin_first_centre; auto | exact dx_point_centre]. Qed.
+
+Lemma multicol_add (g g0 : grid R) :
+  grid_wf g -> geom_wf g -> grid_wf g0 -> same_geom g0 g ->
+  exists data', read_multicol Rops true g0 (write_multicol Rops g) = Some (set_data g0 data', []) /\
+    length data' = length (gr_data g) /\
+    forall j, (j < length (gr_data g))%nat -> nth j data' 0%R = (nth j (gr_data g0) 0 + nth j (gr_data g) 0)%R.
+Proof. apply (multicol_read_written true). Qed.
